@@ -135,12 +135,7 @@ func (r *runner) replicas(ob M, n int) {
 	// close the open block so that its hash is part of the comparison
 	primary := append([]string{}, r.digests...)
 	rng := rand.New(rand.NewSource(r.b.Seed + 99))
-	blocks := 0
-	for _, m := range r.b.Steps {
-		if m["type"] == "BeginBlock" {
-			blocks++
-		}
-	}
+	blocks := r.blockSteps // block steps executed so far (behaviour steps and driver steps)
 	reps := []any{}
 	scheds := []any{}
 	for k := 0; k < n; k++ {
@@ -154,7 +149,7 @@ func (r *runner) replicas(ob M, n int) {
 				}
 			}
 		}
-		rr := &runner{b: r.b, replica: true, restartAt: at}
+		rr := &runner{b: r.b, replica: true, restartAt: at, drvMsgs: r.drvMsgs}
 		func() {
 			defer func() {
 				if p := recover(); p != nil {
